@@ -370,7 +370,7 @@ CAMPAIGNS["add_metadata_command"] = model_campaign(
     thorough=[ex(ph(["cli_add_metadata"], True, "r", 1500))])
 
 CAMPAIGNS["draws"] = {"name": "draws", "kind": "draws", "judge": ["BiomDrawTrace.tla", "BiomDrawTrace.cfg"]}
-CAMPAIGNS["recorded_suite"] = {"name": "recorded_suite", "kind": "recorded", "tiers": ["thorough"],
+CAMPAIGNS["recorded_suite"] = {"name": "recorded_suite", "kind": "recorded", "tiers": ["quick", "thorough"],
                                "judge": ["BiomRecTrace.tla", "BiomRecTrace.cfg"]}
 
 CAMPAIGNS["subset_wide"] = model_campaign(
@@ -403,8 +403,8 @@ PROPERTIES = {
             "spec_checks": [{"kind": "tlaps", "module": "BiomErrProofs.tla", "deps": ["BiomErrCore.tla"], "thorough_only": True}],
             "assumptions": ["kinds obssize/sampsize cannot be tripped in isolation (the duplicate test is also true "
                             "for every size mismatch and is evaluated first), so their reactions are not exercised"]},
-    "C09": {"level": "model_checking", "campaigns": [CAMPAIGNS["merge_pairs"], CAMPAIGNS["merge_universe"]], "assumptions": []},
-    "C10": {"level": "model_checking", "campaigns": [CAMPAIGNS["concat_blocks"], CAMPAIGNS["concat_universe"]], "assumptions": []},
+    "C09": {"level": "model_checking", "campaigns": [CAMPAIGNS["merge_pairs"], CAMPAIGNS["merge_universe"], CAMPAIGNS["recorded_suite"]], "assumptions": []},
+    "C10": {"level": "model_checking", "campaigns": [CAMPAIGNS["concat_blocks"], CAMPAIGNS["concat_universe"], CAMPAIGNS["recorded_suite"]], "assumptions": []},
     "C11": {"level": "model_checking", "campaigns": [CAMPAIGNS["partition_collapse"], CAMPAIGNS["partition_universe"]], "assumptions": []},
     "C12": {"level": "model_checking", "campaigns": [CAMPAIGNS["subsample_counts"], CAMPAIGNS["subsample_universe"], CAMPAIGNS["draws"]],
             "spec_checks": [{"module": "MC_Draws.tla", "cfg": "MC_Draws.cfg", "workers": 1, "env": {"DRAW_CFG": "draws_%s.json" % m}}
